@@ -137,9 +137,18 @@ def run(tier, replay=None):
     # ---- iterator walks ---------------------------------------------------------------------------
     winp = os.path.join(wd, "walks.ndjson")
     wl = ["".join(w["word"]) for w in words]
+    # the same cursor model started further into the execution: the words of the model after a run of Next calls that ends
+    # just behind a memory / context-changing operation, so that Back steps cross it
+    MEMOPS = ("MLOAD", "MLOADW", "MSTORE", "MSTOREW", "MSTREAM", "PIPE", "CALL", "SYSCALL", "END", "FMPUPDATE")
+    tails = sorted({x for x in wl if x.startswith("B") and len(x) <= 4} | {"B", "BB", "BBB", "BNB", "BBNN"})
+    deep_words = {}
+    for name, src, inputs, adv in PROGRAMS[:3]:
+        ops_at = [st_.get("op") for st_ in fwd_states.get(("release", name), [])]
+        offs = [t for t, o in enumerate(ops_at) if o in MEMOPS][:10]
+        deep_words[name] = ["N" * (t + k) + tl for t in offs for k in (1, 2) for tl in tails]
     with open(winp, "w") as f:
         for name, src, inputs, adv in PROGRAMS[:3]:
-            f.write(json.dumps({"src": src, "inputs": [limbs(x) for x in inputs], "adv": [limbs(x) for x in adv], "walks": wl}) + "\n")
+            f.write(json.dumps({"src": src, "inputs": [limbs(x) for x in inputs], "adv": [limbs(x) for x in adv], "walks": wl + deep_words[name]}) + "\n")
     agree = total = 0
     for prof in ("release", "checked"):
         outp = os.path.join(wd, "walks_%s.ndjson" % prof)
@@ -148,7 +157,10 @@ def run(tier, replay=None):
             res = json.loads(line)
             rows = ref_rows[(prof, name)]
             fwd = fwd_states[(prof, name)]
-            for w, wr in zip(words, res["walks"]):
+            allw = list(words) + [{"word": list(x), "rows": None} for x in deep_words[name]]
+            if len(res["walks"]) != len(allw):
+                raise ToolError("iter-walk returned %d walks for %d words" % (len(res["walks"]), len(allw)))
+            for w, wr in zip(allw, res["walks"]):
                 ck.traces += 1
                 word = "".join(w["word"])
                 ck.note_case([name, word])
@@ -158,6 +170,7 @@ def run(tier, replay=None):
                     ck.violation("iter:%s:%s" % (prof, word), "iterator panicked on word %s: %s" % (word, wr["panic"]), rep)
                     continue
                 got = []
+                lagseen = False
                 for it in wr["items"]:
                     if it["r"] != "state":
                         got.append(-1)
@@ -173,11 +186,17 @@ def run(tier, replay=None):
                         elif st["mem"] != f_["mem"]:
                             d2 = ("mem", "memory differs from the forward pass")
                         d = d2 or d
-                    if d:
+                    if d and d[0] in ("lag", "init"):
+                        # the recorded overflow finding is reported once per walk and does not end the comparison
+                        if not lagseen:
+                            ck.violation("iterstate:%s:%s:%s:%s" % (d[0], prof, name, word), "word %s, state reported for clock %d: %s" % (word, st["clk"], d[1]), rep)
+                        lagseen = True
+                    elif d:
                         ck.violation("iterstate:%s:%s:%s:%s" % (d[0], prof, name, word), "word %s, state reported for clock %d: %s" % (word, st["clk"], d[1]), rep)
                         break
-                total += 1
-                agree += got == w["rows"]
+                if w["rows"] is not None:
+                    total += 1
+                    agree += got == w["rows"]
     ck.extra["cursor_discipline_agreement"] = {"words": total, "same_rows_as_model": agree,
                                                "note": "recorded only; the property does not fix which clock a call reports"}
     ck.extra["configurations"] = len(cfgs)
